@@ -4,7 +4,7 @@
 //! reference model (and, where the model leaves the result open, the backends with each other);
 //! then decompositions and deterministic estimators are run generically on identical data.
 use nalgebra::DMatrix;
-use ndarray::Array2;
+use ndarray::{s, Array1, Array2, ShapeBuilder};
 use scverif::matprog::*;
 use scverif::*;
 use smartcore::linalg::naive::dense_matrix::DenseMatrix;
@@ -16,6 +16,85 @@ fn tiny<T: RealNumber>() -> f64 {
         1e-37
     } else {
         1e-290
+    }
+}
+
+/// Memory layouts an owned backend matrix can legitimately be in. The logical content never changes; only the
+/// ndarray backend has more than one owned layout (nalgebra and the built-in matrix are always dense column-major).
+const LAYOUTS: [&str; 6] = ["standard", "row-offset(sliced in place)", "column-cut(sliced in place)", "column-major", "reversed-rows(negative stride)", "every-second-row(stride 2)"];
+
+trait Layout<T>: Sized {
+    fn relayout(self, _code: usize) -> Self {
+        self
+    }
+}
+impl<T: RealNumber> Layout<T> for DenseMatrix<T> {}
+impl<T: RealNumber + nalgebra::Scalar> Layout<T> for DMatrix<T> {}
+impl<T: RealNumber> Layout<T> for Array2<T> {
+    fn relayout(self, code: usize) -> Self {
+        let (r, c) = self.dim();
+        let pad = T::from_f64(7.5).unwrap_or_else(T::one);
+        match code % LAYOUTS.len() {
+            1 => {
+                let mut big = Array2::from_elem((r + 2, c), pad);
+                big.slice_mut(s![1..r + 1, ..]).assign(&self);
+                big.slice_move(s![1..r + 1, ..])
+            }
+            2 => {
+                let mut big = Array2::from_elem((r, c + 2), pad);
+                big.slice_mut(s![.., 1..c + 1]).assign(&self);
+                big.slice_move(s![.., 1..c + 1])
+            }
+            3 => {
+                let mut f = Array2::from_elem((r, c).f(), pad);
+                f.assign(&self);
+                f
+            }
+            4 => {
+                let mut big = Array2::from_elem((r, c), pad);
+                for i in 0..r {
+                    big.row_mut(r - 1 - i).assign(&self.row(i));
+                }
+                big.slice_move(s![..;-1, ..])
+            }
+            5 => {
+                let mut big = Array2::from_elem((2 * r, c), pad);
+                for i in 0..r {
+                    big.row_mut(2 * i).assign(&self.row(i));
+                }
+                big.slice_move(s![..;2, ..])
+            }
+            _ => self,
+        }
+    }
+}
+
+const VLAYOUTS: [&str; 4] = ["standard", "offset(sliced in place)", "reversed(negative stride)", "every-second-entry(stride 2)"];
+
+fn relayout_vec<T: RealNumber>(v: Array1<T>, code: usize) -> Array1<T> {
+    let n = v.len();
+    let pad = T::from_f64(7.5).unwrap_or_else(T::one);
+    match code % VLAYOUTS.len() {
+        1 => {
+            let mut big = Array1::from_elem(n + 2, pad);
+            big.slice_mut(s![1..n + 1]).assign(&v);
+            big.slice_move(s![1..n + 1])
+        }
+        2 => {
+            let mut big = Array1::from_elem(n, pad);
+            for i in 0..n {
+                big[n - 1 - i] = v[i];
+            }
+            big.slice_move(s![..;-1])
+        }
+        3 => {
+            let mut big = Array1::from_elem(2 * n, pad);
+            for i in 0..n {
+                big[2 * i] = v[i];
+            }
+            big.slice_move(s![..;2])
+        }
+        _ => v,
     }
 }
 
@@ -111,6 +190,33 @@ macro_rules! program_impl {
             let init = regs_json(&regs);
             let mut bd: BackendRegs<T, DenseMatrix<T>> = BackendRegs::from_model(&regs);
             let mut bn: BackendRegs<T, Array2<T>> = BackendRegs::from_model(&regs);
+            // the ndarray registers start in drawn memory layouts (same logical content)
+            if c.rng.bool(0.5) {
+                for i in 0..bn.m.len() {
+                    let code = c.rng.below(LAYOUTS.len());
+                    if code != 0 {
+                        let a = std::mem::replace(&mut bn.m[i], Array2::from_elem((1, 1), 0.0 as T));
+                        bn.m[i] = a.relayout(code);
+                        c.bucket(&format!("ndarray-layout:{}", LAYOUTS[code]));
+                        if from_m::<T, Array2<T>>(&bn.m[i]).d != from_m::<T, DenseMatrix<T>>(&bd.m[i]).d {
+                            c.inconclusive("harness: relayout changed the logical content");
+                            return;
+                        }
+                    }
+                }
+                for i in 0..bn.v.len() {
+                    let code = c.rng.below(VLAYOUTS.len());
+                    if code != 0 && !bn.v[i].is_empty() {
+                        let a = std::mem::replace(&mut bn.v[i], Array1::from_elem(1, 0.0 as T));
+                        bn.v[i] = relayout_vec(a, code);
+                        c.bucket(&format!("ndarray-vector-layout:{}", VLAYOUTS[code]));
+                        if bn.v[i].iter().cloned().collect::<Vec<T>>() != bd.v[i] {
+                            c.inconclusive("harness: vector relayout changed the logical content");
+                            return;
+                        }
+                    }
+                }
+            }
             let mut ba: BackendRegs<T, DMatrix<T>> = BackendRegs::from_model(&regs);
             let len = c.rng.us(1, max_len);
             let mut trace: Vec<String> = Vec::new();
@@ -266,6 +372,7 @@ struct Data {
     k: usize,
     seed: u64,
     idx: Vec<usize>,
+    layout: usize, // memory layouts of the training / query matrices (ndarray backend only)
 }
 
 fn vecm<M: Matrix<f64>>(v: &[f64]) -> M::RowVector {
@@ -281,9 +388,9 @@ fn e2s<E: std::fmt::Display>(e: E) -> String {
 }
 
 /// fit + predict / transform of one estimator kind on backend M; output flattened to a vector
-fn run_est<M: Matrix<f64>>(d: &Data) -> Result<Vec<f64>, String> {
-    let x: M = to_m(&d.x);
-    let xq: M = to_m(&d.xq);
+fn run_est<M: Matrix<f64> + Layout<f64>>(d: &Data) -> Result<Vec<f64>, String> {
+    let x: M = to_m::<f64, M>(&d.x).relayout(d.layout);
+    let xq: M = to_m::<f64, M>(&d.xq).relayout(d.layout / LAYOUTS.len());
     let y = vecm::<M>(&d.y);
     smartcore::verif::set_step_budget(20_000_000);
     let r = (|| -> Result<Vec<f64>, String> {
@@ -434,7 +541,7 @@ fn draw_data(rng: &mut Rng, kind: &'static str) -> Data {
     let n = rng.us(8, 40);
     let p = rng.us(1, 5);
     let nq = rng.us(1, 8);
-    let mut d = Data { kind, x: Mat::zeros(1, 1), y: vec![], xq: Mat::zeros(1, 1), p1: 1.0, p2: 0.5, flag: rng.bool(0.5), k: 1, seed: rng.next_u64(), idx: vec![] };
+    let mut d = Data { kind, x: Mat::zeros(1, 1), y: vec![], xq: Mat::zeros(1, 1), p1: 1.0, p2: 0.5, flag: rng.bool(0.5), k: 1, seed: rng.next_u64(), idx: vec![], layout: if rng.bool(0.5) { 0 } else { rng.below(LAYOUTS.len() * LAYOUTS.len()) } };
     let classes = rng.us(2, 3);
     let labels: Vec<f64> = {
         let vals: Vec<f64> = (0..classes).map(|c| (c as f64) * 2.0 - 1.0).collect();
@@ -538,6 +645,7 @@ fn estimators(c: &mut Case) {
     let d = draw_data(&mut c.rng, kind);
     c.describe(json!({"estimator": kind, "x": mat_json(&d.x), "y": d.y, "xq": mat_json(&d.xq), "p1": d.p1, "p2": d.p2, "flag": d.flag, "k": d.k, "seed": d.seed.to_string(), "cat_idx": d.idx}));
     c.bucket(&format!("estimator:{}", kind));
+    c.bucket(&format!("ndarray-layout:x={}", LAYOUTS[d.layout % LAYOUTS.len()]));
     let rd = c.must(&format!("dense:{}", kind), || run_est::<DenseMatrix<f64>>(&d));
     let rn = c.must(&format!("ndarray:{}", kind), || run_est::<Array2<f64>>(&d));
     let ra = c.must(&format!("nalgebra:{}", kind), || run_est::<DMatrix<f64>>(&d));
@@ -583,9 +691,9 @@ fn estimators(c: &mut Case) {
 
 // decompositions on the three backends
 
-fn run_decomp<M: Matrix<f64>>(kind: &str, a: &Mat, b: &Mat) -> Result<Vec<Mat>, String> {
-    let am: M = to_m(a);
-    let bm: M = to_m(b);
+fn run_decomp<M: Matrix<f64> + Layout<f64>>(kind: &str, a: &Mat, b: &Mat, layout: usize) -> Result<Vec<Mat>, String> {
+    let am: M = to_m::<f64, M>(a).relayout(layout);
+    let bm: M = to_m::<f64, M>(b).relayout(layout / LAYOUTS.len());
     Ok(match kind {
         "lu" => {
             let lu = am.lu().map_err(e2s)?;
@@ -644,9 +752,11 @@ fn decompositions(c: &mut Case) {
     let b = Mat::randn(&mut c.rng, a.r, bc);
     c.describe(json!({"decomposition": kind, "A": mat_json(&a), "B": mat_json(&b)}));
     c.bucket(&format!("decomposition:{}", kind));
-    let rd = c.must(&format!("dense:{}", kind), || run_decomp::<DenseMatrix<f64>>(kind, &a, &b));
-    let rn = c.must(&format!("ndarray:{}", kind), || run_decomp::<Array2<f64>>(kind, &a, &b));
-    let ra = c.must(&format!("nalgebra:{}", kind), || run_decomp::<DMatrix<f64>>(kind, &a, &b));
+    let layout = if c.rng.bool(0.5) { 0 } else { c.rng.below(LAYOUTS.len() * LAYOUTS.len()) };
+    c.bucket(&format!("ndarray-layout:A={}", LAYOUTS[layout % LAYOUTS.len()]));
+    let rd = c.must(&format!("dense:{}", kind), || run_decomp::<DenseMatrix<f64>>(kind, &a, &b, layout));
+    let rn = c.must(&format!("ndarray:{}", kind), || run_decomp::<Array2<f64>>(kind, &a, &b, layout));
+    let ra = c.must(&format!("nalgebra:{}", kind), || run_decomp::<DMatrix<f64>>(kind, &a, &b, layout));
     let (rd, rn, ra) = match (rd, rn, ra) {
         (Some(x), Some(y), Some(z)) => (x, y, z),
         _ => return,
